@@ -1,11 +1,13 @@
 (* C02 — "any sequence of library calls ... executes without undefined behaviour", for the container families the
    property's quantifier names (all container histories of C01 / C04 / C09) plus bitset (C17), in ONE program:
-   a world holds two static_vectors, an inplace_string, a pair of sets and a pair of bitsets; a program is any list
+   a world holds two static_vectors, an inplace_string, a pair of sets, a pair of bitsets, two inplace_vectors, two
+   variants and three optionals; a program is any list
    of calls, each addressed to one of them, valid or not, in any order.  The run stops at the first call whose
    TETL_PRECONDITION fires (as the real program does in the assert handler).  Proved by induction over the program
    from the one-step theorems of the four packages; nothing here is specific to the length or the mix of the program. *)
 From Tetl Require Import Lib.Base Lib.Arr C02.Safe.
-From Tetl Require C06a.Model C01.Model C01.Spec C01.ProofsBase C01.ProofsStep.
+From Tetl Require C06a.Model C01.Model C01.Spec C01.ProofsBase C01.ProofsStep C01.ProofsIv.
+From Tetl Require C07.Types C07.Model C07.VariantProofs C07.OptionalProofs C07.Properties.
 From Tetl Require C08.Model C04.Model C04.Inv C04.InvOps C04.Total C04.Properties.
 From Tetl Require C09.Ops C09.Model C09.Spec C09.ProofsRun C09.Properties.
 From Tetl Require C17.Ops C17.Model C17.History C17.Properties.
@@ -24,18 +26,28 @@ Variable scap : nat.                            (* set capacity *)
 Variable bits : nat.                            (* bitset width *)
 Variable wk : nat.                              (* word width 2^wk *)
 Hypothesis Hbits : (0 < bits)%nat.
+Variable icap : nat.                            (* inplace_vector capacity *)
+Hypothesis Hicap : Z.of_nat icap < 2 ^ 63.
+Variable alts : list C07.Types.ty.              (* the variant's alternatives *)
+Variable oT oU : C07.Types.ty.                  (* optional<T>, optional<U> *)
 
 Record world := mkworld {
   w_vecs : C01.Model.vec * C01.Model.vec;
   w_str : C04.Model.istr;
   w_sets : C09.Ops.st A;
-  w_bits : C17.Model.state }.
+  w_bits : C17.Model.state;
+  w_ivecs : C01.Model.vec * C01.Model.vec;      (* two inplace_vectors *)
+  w_vars : C07.Model.vstate;                    (* two variants *)
+  w_opts : C07.Model.ostate }.                  (* three optionals *)
 
 Inductive call :=
 | CVec (o : C01.Model.op)
 | CStr (o : C04.Model.op)
 | CSet (o : C09.Ops.op A)
-| CBits (o : C17.Ops.op).
+| CBits (o : C17.Ops.op)
+| CIvec (o : C01.Model.iv_op)
+| CVar (o : C07.Types.vop)
+| COpt (o : C07.Types.oop).
 
 Definition is_ocontract (r : C09.Model.out A) : bool :=
   match r with C09.Model.OContract => true | _ => false end.
@@ -44,22 +56,37 @@ Definition step_world (w : world) (c : call) : res world :=
   match c with
   | CVec o =>
       match C01.Model.step pred (w_vecs w) o with
-      | Ok (v', _) => Ok (mkworld v' (w_str w) (w_sets w) (w_bits w))
+      | Ok (v', _) => Ok (mkworld v' (w_str w) (w_sets w) (w_bits w) (w_ivecs w) (w_vars w) (w_opts w))
       | Contract => Contract | UB k => UB k | OutOfFuel => OutOfFuel
       end
   | CStr o =>
       match C04.Model.step (w_str w) o with
-      | Ok s' => Ok (mkworld (w_vecs w) s' (w_sets w) (w_bits w))
+      | Ok s' => Ok (mkworld (w_vecs w) s' (w_sets w) (w_bits w) (w_ivecs w) (w_vars w) (w_opts w))
       | Contract => Contract | UB k => UB k | OutOfFuel => OutOfFuel
       end
   | CSet o =>
       match C09.Model.step lt kind scap (w_sets w) o with
-      | Ok (s', r) => if is_ocontract r then Contract else Ok (mkworld (w_vecs w) (w_str w) s' (w_bits w))
+      | Ok (s', r) => if is_ocontract r then Contract else Ok (mkworld (w_vecs w) (w_str w) s' (w_bits w) (w_ivecs w) (w_vars w) (w_opts w))
       | Contract => Contract | UB k => UB k | OutOfFuel => OutOfFuel
       end
   | CBits o =>
       match C17.Model.step_m bits (2 ^ wk) (w_bits w) o with
-      | Ok (b', _) => Ok (mkworld (w_vecs w) (w_str w) (w_sets w) b')
+      | Ok (b', _) => Ok (mkworld (w_vecs w) (w_str w) (w_sets w) b' (w_ivecs w) (w_vars w) (w_opts w))
+      | Contract => Contract | UB k => UB k | OutOfFuel => OutOfFuel
+      end
+  | CIvec o =>
+      match C01.Model.iv_step (w_ivecs w) o with
+      | Ok (v', _) => Ok (mkworld (w_vecs w) (w_str w) (w_sets w) (w_bits w) v' (w_vars w) (w_opts w))
+      | Contract => Contract | UB k => UB k | OutOfFuel => OutOfFuel
+      end
+  | CVar o =>
+      match C07.Model.vstep alts (w_vars w) o with
+      | Ok s' => Ok (mkworld (w_vecs w) (w_str w) (w_sets w) (w_bits w) (w_ivecs w) s' (w_opts w))
+      | Contract => Contract | UB k => UB k | OutOfFuel => OutOfFuel
+      end
+  | COpt o =>
+      match C07.Model.ostep oT oU (w_opts w) o with
+      | Ok s' => Ok (mkworld (w_vecs w) (w_str w) (w_sets w) (w_bits w) (w_ivecs w) (w_vars w) s')
       | Contract => Contract | UB k => UB k | OutOfFuel => OutOfFuel
       end
   end.
@@ -79,7 +106,10 @@ Definition world_inv (w : world) : Prop :=
   C01.ProofsBase.inv vcap (fst (w_vecs w)) /\ C01.ProofsBase.inv vcap (snd (w_vecs w)) /\
   C04.Inv.inv (w_str w) /\
   C09.ProofsRun.inv lt scap (w_sets w) /\
-  C17.History.wf2 bits wk (w_bits w).
+  C17.History.wf2 bits wk (w_bits w) /\
+  C01.ProofsBase.inv icap (fst (w_ivecs w)) /\ C01.ProofsBase.inv icap (snd (w_ivecs w)) /\
+  C07.VariantProofs.wfs alts (w_vars w) /\
+  C07.OptionalProofs.wfos (w_opts w).
 
 (* arguments are values of their C++ types (an index is a size_t, ...); a (pointer, count) argument stays inside the
    array the pointer points into; replace / sorted_unique are handed a sorted unique container *)
@@ -89,6 +119,9 @@ Definition call_ok (c : call) : Prop :=
   | CStr o => C04.InvOps.op_wf o /\ C04.Total.ptr_ok o
   | CSet o => C09.ProofsRun.op_ok lt kind o
   | CBits _ => True
+  | CIvec o => C01.ProofsIv.iv_at_arg_ok o
+  | CVar o => C07.VariantProofs.wf_vop alts o      (* emplace<I> / in_place_index<I> name an existing alternative *)
+  | COpt _ => True
   end.
 
 Lemma step_world_safe : forall w c, world_inv w -> call_ok c ->
@@ -98,19 +131,26 @@ Lemma step_world_safe : forall w c, world_inv w -> call_ok c ->
   | _ => False
   end.
 Proof.
-  intros w c (Iv1 & Iv2 & Is & It & Ib) Hc. destruct c as [o|o|o|o]; cbn [step_world call_ok] in *.
+  intros w c (Iv1 & Iv2 & Is & It & Ib & Ii1 & Ii2 & Ivar & Iopt) Hc. destruct c as [o|o|o|o|o|o|o]; cbn [step_world call_ok] in *.
   - pose proof (C01.ProofsStep.step_safe pred vcap Hvcap (w_vecs w) o Iv1 Iv2 Hc) as S.
     destruct (C01.Model.step pred (w_vecs w) o) as [[v' out]| |k|]; cbn [C01.ProofsStep.safe_step] in S; try contradiction; [|exact I].
-    destruct S as [S1 S2]. unfold world_inv. cbn [w_vecs w_str w_sets w_bits]. auto.
+    destruct S as [S1 S2]. unfold world_inv. cbn [w_vecs w_str w_sets w_bits w_ivecs w_vars w_opts fst snd]. tauto.
   - destruct Hc as [Hw Hp]. pose proof (C04.Properties.C04_step_outcome (w_str w) o Is Hw Hp) as S.
     destruct (C04.Total.pre_ok (w_str w) o).
-    + destruct S as (s' & E & (I' & _)). rewrite E. unfold world_inv. cbn [w_vecs w_str w_sets w_bits]. auto.
+    + destruct S as (s' & E & (I' & _)). rewrite E. unfold world_inv. cbn [w_vecs w_str w_sets w_bits w_ivecs w_vars w_opts fst snd]. tauto.
     + rewrite S. exact I.
   - destruct (C09.Properties.C09_step_from_any_set A lt Hlt kind scap (w_sets w) o It Hc) as (s' & r' & E & I' & _).
-    rewrite E. destruct (is_ocontract r'); [exact I|]. unfold world_inv. cbn [w_vecs w_str w_sets w_bits]. auto.
+    rewrite E. destruct (is_ocontract r'); [exact I|]. unfold world_inv. cbn [w_vecs w_str w_sets w_bits w_ivecs w_vars w_opts fst snd]. tauto.
   - pose proof (C17.Properties.C17_step_refines bits wk Hbits (w_bits w) o Ib) as S.
     destruct (C17.Model.step_m bits (2 ^ wk) (w_bits w) o) as [[b' q]| |k|]; try contradiction; [|exact I].
-    destruct S as [S _]. unfold world_inv. cbn [w_vecs w_str w_sets w_bits]. auto.
+    destruct S as [S _]. unfold world_inv. cbn [w_vecs w_str w_sets w_bits w_ivecs w_vars w_opts fst snd]. tauto.
+  - pose proof (C01.ProofsIv.iv_step_safe icap Hicap (w_ivecs w) o Ii1 Ii2 Hc) as S.
+    destruct (C01.Model.iv_step (w_ivecs w) o) as [[v' out]| |k|]; cbn [C01.ProofsStep.safe_step] in S; try contradiction; [|exact I].
+    destruct S as [S1 S2]. unfold world_inv. cbn [w_vecs w_str w_sets w_bits w_ivecs w_vars w_opts fst snd]. tauto.
+  - destruct (C07.Properties.C07_variant_step_refines_std alts (w_vars w) o Ivar Hc) as (s' & E & _ & W).
+    rewrite E. unfold world_inv. cbn [w_vecs w_str w_sets w_bits w_ivecs w_vars w_opts fst snd]. tauto.
+  - destruct (C07.Properties.C07_optional_step_refines_std oT oU (w_opts w) o Iopt) as (s' & E & _ & W).
+    rewrite E. unfold world_inv. cbn [w_vecs w_str w_sets w_bits w_ivecs w_vars w_opts fst snd]. tauto.
 Qed.
 
 Theorem run_world_no_ub : forall p w, world_inv w -> Forall call_ok p ->
@@ -127,13 +167,18 @@ Qed.
 (* the freshly constructed objects *)
 Definition fresh (c : Z) (ck : C08.Model.charkind) : world :=
   mkworld (C01.Model.empty_vec vcap, C01.Model.empty_vec vcap) (C04.Model.default_str c ck) C09.Ops.init
-          (C17.Model.init_m bits (2 ^ wk)).
+          (C17.Model.init_m bits (2 ^ wk)) (C01.Model.empty_vec icap, C01.Model.empty_vec icap)
+          (C07.Model.var_default, C07.Model.var_default) (C07.Model.opt_empty, C07.Model.opt_empty, C07.Model.opt_empty).
 
-Lemma fresh_inv : forall c ck, C04.Inv.cap_ok c -> world_inv (fresh c ck).
+Lemma fresh_inv : forall c ck, C04.Inv.cap_ok c -> alts <> [] -> world_inv (fresh c ck).
 Proof.
-  intros c ck Hc. unfold world_inv, fresh. cbn [w_vecs w_str w_sets w_bits fst snd].
+  intros c ck Hc Ha. unfold world_inv, fresh. cbn [w_vecs w_str w_sets w_bits w_ivecs w_vars w_opts fst snd].
   split; [apply C01.ProofsBase.empty_inv|]. split; [apply C01.ProofsBase.empty_inv|].
   split; [exact (proj1 (C04.Inv.inv_default c ck Hc))|]. split; [apply C09.ProofsRun.inv_init|].
-  apply C17.History.wf2_init; assumption.
+  split; [apply C17.History.wf2_init; assumption|].
+  split; [apply C01.ProofsBase.empty_inv|]. split; [apply C01.ProofsBase.empty_inv|].
+  split.
+  - unfold C07.VariantProofs.wfs, C07.VariantProofs.wfv. cbn. destruct alts; [contradiction|cbn [length]; lia].
+  - unfold C07.OptionalProofs.wfos, C07.OptionalProofs.wfo. cbn. lia.
 Qed.
 End Program.
